@@ -144,7 +144,7 @@ def generate(rng, *, n_inputs=None, n_statements=None, rows=None, carriers=("df"
     from .gen import csv_text
 
     k = n_inputs or rng.choice([1, 2, 2, 3, 4])
-    m = n_statements or rng.choice([2, 3, 3, 4, 5, 6, 7, 8])
+    m = n_statements or rng.choice([2, 3, 3, 4, 5, 6, 7, 8, 9, 10, 12])
     scalar_bias = rng.choice([0.15, 0.3, 0.5]) if scalar_bias is None else scalar_bias
     persist_p = rng.choice([0.2, 0.5, 0.8]) if persist_p is None else persist_p
     inputs = ["DS_%d" % (i + 1) for i in range(k)]
